@@ -3,7 +3,7 @@
 F=$1; shift
 D=/root/.verif-scratch/dev
 mkdir -p $D
-rsync -a --delete --exclude /target --exclude /.git /repo/ $D/repo/
+rsync -a --delete --exclude /target --exclude /.git ${DEV_SRC:-/repo}/ $D/repo/
 mkdir -p $D/repo/.cargo
 printf '[net]\noffline = true\n[patch.crates-io]\nethnum = { path = "/verif/vendor/ethnum-kani" }\nanyhow = { path = "/verif/vendor/anyhow-kani" }\n' > $D/repo/.cargo/config.toml
 for rel in "$@"; do
